@@ -1,12 +1,189 @@
-(* C16 - declarative codec: encode and decode are mutually inverse and length-exact. Statements only. *)
+(* C16 - declarative codec (trx_toolkit/codec.py): encode and decode are mutually inverse and length-exact.
+   Statements only.  Model/Codec.v: `field` = deep embedding of protocol definitions (Uint/Int of any width, byte order,
+   sign, offset, multiplier; Buf; Spare; MSB/LSB bit-field sets; nested envelopes; sequences; table-shaped presence and
+   length callbacks), `encode`/`decode` = Envelope.to_bytes / Envelope(check_len).from_bytes.
+   `fits fs e e0 R cv u` (Proofs/CodecRT.v): dict e supplies encodable values for definition fs; u = octets of the
+   encoding; cv = what the decoder appends to e0 when R octets follow.  `wfb` (Model) = well-formed definition. *)
 From Coq Require Import ZArith List Bool.
-From OBB Require Import Base.Bits Model.Codec Proofs.CodecInt.
+From OBB Require Import Gen.CodecConst Base.Bits Model.Codec Proofs.CodecInt Proofs.CodecBits Proofs.CodecRT Proofs.CodecDE Proofs.CodecErr Proofs.CodecCanon Proofs.CodecEx.
 Import ListNotations.
 Open Scope Z_scope.
 
-(* integer leaf, any width n >= 1, either byte order, signed or unsigned: what int.to_bytes produced is read back
-   by int.from_bytes, has exactly n octets, and all of them are octets *)
+(* the class defaults the embedding relies on, as imported from the source: Field.DEF_LEN = 0 (whole buffer), Uint 1 octet,
+   Uint16/Int16 2, Uint32/Int32 4, offset 0, mult 1, Spare filler 0x00, bit-field sets MSB first *)
+Theorem c16_constants :
+  py_field_def_len = 0 /\ py_uint_def_len = 1 /\ py_uint16_len = 2 /\ py_uint32_len = 4 /\ py_int16_len = 2 /\ py_int32_len = 4 /\
+  py_uint_def_offset = 0 /\ py_uint_def_mult = 1 /\ py_spare_filler = 0 /\ py_bits_def_order_msb = 1.
+Proof. exact codec_consts. Qed.
+Print Assumptions c16_constants.
+
+(* ------------------------------------------------------------------ integer leaves *)
+(* any width n >= 1, either byte order, signed or unsigned: int.from_bytes reads back what int.to_bytes wrote, n octets *)
 Theorem c16_int_roundtrip : forall n le sg x b, (1 <= n)%nat ->
   enc_int n le sg x = Ok b -> dec_int le sg b = x /\ length b = n /\ Forall (fun o => 0 <= o < 256) b.
 Proof. exact int_rt. Qed.
 Print Assumptions c16_int_roundtrip.
+
+(* conversely every string of n >= 1 octets is the encoding of the integer it decodes to, and that integer is in range *)
+Theorem c16_int_decode_encode : forall le sg b, Forall (fun o => 0 <= o < 256) b -> (1 <= length b)%nat ->
+  enc_int (length b) le sg (dec_int le sg b) = Ok b /\
+  (if sg then - (256 ^ Z.of_nat (length b) / 2) <= dec_int le sg b < 256 ^ Z.of_nat (length b) / 2
+   else 0 <= dec_int le sg b < 256 ^ Z.of_nat (length b)).
+Proof. exact (fun le sg b Hb Hn => conj (dec_enc_int le sg b Hb Hn) (dec_int_range le sg b Hb Hn)). Qed.
+Print Assumptions c16_int_decode_encode.
+
+(* an integer is unencodable exactly outside the two's-complement / unsigned range: OverflowError (Crash 2 at field level) *)
+Theorem c16_int_overflow : forall n le sg x, (1 <= n)%nat ->
+  ~ (if sg then - (256 ^ Z.of_nat n / 2) <= x < 256 ^ Z.of_nat n / 2 else 0 <= x < 256 ^ Z.of_nat n) ->
+  enc_int n le sg x = Crash 2.
+Proof. exact enc_int_overflow. Qed.
+Print Assumptions c16_int_overflow.
+
+(* offset and multiplier: (v - offset) // mult undoes raw * mult + offset for every non-zero multiplier (negative included) *)
+Theorem c16_offset_mult : forall raw off mult, mult <> 0 -> (raw * mult + off - off) / mult = raw.
+Proof. exact offmult_rt. Qed.
+Print Assumptions c16_offset_mult.
+
+(* ------------------------------------------------------------------ bit-field sets *)
+(* `(val & mask) << offset`: only val mod 2^bl enters the blob, for every integer val *)
+Theorem c16_bits_mask : forall v bl o, 0 <= bl ->
+  Z.shiftl (Z.land v (2 ^ bl - 1)) o = Z.shiftl (Z.land (v mod 2 ^ bl) (2 ^ bl - 1)) o.
+Proof. exact bf_contrib_mod. Qed.
+Print Assumptions c16_bits_mask.
+
+(* a whole set, MSB or LSB first, with spares, fixed values and padding: packing the values (ANY integers) and reading the
+   octets back stores, for every named field, its own value reduced modulo 2^bl - an over-wide value is truncated to its
+   width and no neighbouring field is disturbed.  bits_fit lists e's value z of each named field as (name, z mod 2^bl). *)
+Theorem c16_bits_truncate : forall l lsb bfs e cv e0,
+  (1 <= bits_len l bfs)%nat /\ (bits_total bfs <= 8 * bits_len l bfs)%nat ->
+  bits_fit (bits_order lsb bfs) e cv -> fresh e0 cv ->
+  exists blob b, enc_bits (bits_layout l lsb bfs) e 0 = Ok blob /\
+    enc_int (bits_len l bfs) false false blob = Ok b /\ length b = bits_len l bfs /\ Forall (fun o => 0 <= o < 256) b /\
+    dec_bits (bits_layout l lsb bfs) (from_be b) e0 = Ok (e0 ++ cv).
+Proof. exact bits_enc_dec. Qed.
+Print Assumptions c16_bits_truncate.
+
+(* ------------------------------------------------------------------ encode then decode, every definition *)
+(* decoding the encoding returns the fitting values and consumes exactly the octets of the encoding, with and without
+   the tail check (all constructs: flat, bit-field sets, nesting, sequences, presence / length callbacks) *)
+Theorem c16_enc_dec : forall fs e cv u b chk,
+  fits fs e [] 0 cv u /\ NoDup (keys cv) -> encode fs e = Ok b ->
+  decode chk fs b = Ok (cv, length b) /\ length b = u.
+Proof. exact enc_dec_top. Qed.
+Print Assumptions c16_enc_dec.
+
+(* for a dict that holds exactly the present fields in field order: decode (encode v) = v *)
+Theorem c16_enc_dec_exact : forall fs v u b,
+  fits fs v [] 0 v u /\ NoDup (keys v) -> encode fs v = Ok b -> decode true fs b = Ok (v, length b).
+Proof. exact (fun fs v u b H E => proj1 (enc_dec_top fs v v u b true H E)). Qed.
+Print Assumptions c16_enc_dec_exact.
+
+(* the decoded message is canonical: encoding it reproduces the octets of the original encoding *)
+Theorem c16_reencode_canonical : forall fs e cv u b,
+  fits fs e [] 0 cv u /\ NoDup (keys cv) -> encode fs e = Ok b ->
+  decode true fs b = Ok (cv, length b) /\ encode fs cv = Ok b.
+Proof. exact reencode_canonical. Qed.
+Print Assumptions c16_reencode_canonical.
+
+(* ------------------------------------------------------------------ decode then encode, every well-formed definition *)
+(* whatever octets decode successfully: the message fits (so c16_enc_dec applies to it), re-encodes to exactly the n
+   consumed octets, and the re-encoding (followed by the same trailing octets) decodes to the same message - the
+   re-encoding can differ from the input only where the decoder ignores the input (spare octets/bits, padding bits) *)
+Theorem c16_dec_enc : forall chk fs data v n,
+  wfb fs = true -> Forall (fun o => 0 <= o < 256) data -> decode chk fs data = Ok (v, n) ->
+  (n <= length data)%nat /\ fits fs v [] (length data - n) v n /\ NoDup (keys v) /\
+  exists b', encode fs v = Ok b' /\ length b' = n /\ decode chk fs (b' ++ skipn n data) = Ok (v, n).
+Proof. exact dec_enc_top. Qed.
+Print Assumptions c16_dec_enc.
+
+(* ------------------------------------------------------------------ errors *)
+(* the Envelope API raises only its own errors: decode gives Ok / DecodeErr / (OutOfFuel), encode gives Ok / EncodeErr;
+   Crash only as 9 = ProtocolError of a definition the constructors reject *)
+Theorem c16_results_closed : forall chk fs data e,
+  match decode chk fs data with Ok _ | DecodeErr _ | OutOfFuel => True | EncodeErr _ => False | Crash c => c = 9 /\ proto_ok fs = false end /\
+  match encode fs e with Ok _ | EncodeErr _ | OutOfFuel => True | DecodeErr _ => False | Crash c => c = 9 /\ proto_ok fs = false end.
+Proof. exact (fun chk fs data e => conj (decode_closed chk fs data) (encode_closed fs e)). Qed.
+Print Assumptions c16_results_closed.
+
+(* encoding always terminates; decoding terminates whenever every sequence item has an always-present field of fixed
+   length >= 1 (otherwise the Python `while offset < length` loop spins: the model's OutOfFuel) *)
+Theorem c16_terminates : forall chk fs data e,
+  encode fs e <> OutOfFuel /\ (seq_ok fs = true -> decode chk fs data <> OutOfFuel).
+Proof. exact (fun chk fs data e => conj (encode_terminates fs e) (decode_terminates chk fs data)). Qed.
+Print Assumptions c16_terminates.
+
+(* Field.from_bytes: "Short read" exactly when fewer octets remain than the field needs *)
+Theorem c16_short_read_field : forall recd recs f e data n,
+  get_pres (fpres f) e = Ok true -> get_len_f f e (length data) = Ok n -> (length data < n)%nat ->
+  dec_field recd recs f e data = DecodeErr 0.
+Proof. exact short_field. Qed.
+Print Assumptions c16_short_read_field.
+
+(* a definition of static size a (no optional / variable-length field at top level): fewer than a octets are rejected
+   with DecodeError, and a successful decode consumes exactly a octets *)
+Theorem c16_short_input : forall chk fs data a,
+  proto_ok fs = true -> seq_ok fs = true -> static_len fs = Some a -> (length data < a)%nat ->
+  exists c, decode chk fs data = DecodeErr c.
+Proof. exact short_input. Qed.
+Print Assumptions c16_short_input.
+
+(* trailing octets after a valid encoding: rejected by the tail check, left unconsumed without it *)
+Theorem c16_trailing : forall fs e cv u b t,
+  fits fs e [] (length t) cv u -> NoDup (keys cv) -> encode fs e = Ok b -> t <> [] ->
+  decode true fs (b ++ t) = DecodeErr 0 /\ decode false fs (b ++ t) = Ok (cv, length b).
+Proof. exact trailing. Qed.
+Print Assumptions c16_trailing.
+
+(* a definition that starts with an always-present bit-field set (the TRXD header): a fixed field reading anything but
+   its fixed value is the codec's own DecodeError *)
+Theorem c16_fixed_mismatch : forall chk l lsb bfs fs data k bl c o m,
+  proto_ok (FBits l PAlways lsb bfs :: fs) = true -> (bits_len l bfs <= length data)%nat ->
+  In (BitF (Some k) bl (Some c), o, m) (bits_layout l lsb bfs) ->
+  Z.land (Z.shiftr (from_be (firstn (bits_len l bfs) data)) o) m <> c ->
+  decode chk (FBits l PAlways lsb bfs :: fs) data = DecodeErr 0.
+Proof. exact fixed_mismatch. Qed.
+Print Assumptions c16_fixed_mismatch.
+
+(* an integer outside the range of its field anywhere in the definition: EncodeError *)
+Theorem c16_unencodable_int : forall fs e nm n p le sg off mult z,
+  proto_ok fs = true -> In (FUint nm (LFix n) p le sg off mult) fs -> (1 <= n)%nat -> get_pres p e = Ok true ->
+  lookup nm e = Some (VInt z) -> mult <> 0 ->
+  ~ (if sg then - (256 ^ Z.of_nat n / 2) <= (z - off) / mult < 256 ^ Z.of_nat n / 2 else 0 <= (z - off) / mult < 256 ^ Z.of_nat n) ->
+  exists c, encode fs e = EncodeErr c.
+Proof. exact (fun fs e nm n p le sg off mult z Hpo Hin Hn Hp Hl Hm Hr =>
+  unencodable fs _ e Hpo Hin (enc_fails_uint nm n p le sg off mult e z Hn Hp Hl Hm Hr)). Qed.
+Print Assumptions c16_unencodable_int.
+
+(* a buffer whose length differs from the fixed length of its field: EncodeError *)
+Theorem c16_wrong_length_buffer : forall fs e nm n p b,
+  proto_ok fs = true -> In (FBuf nm (LFix (S n)) p) fs -> get_pres p e = Ok true ->
+  lookup nm e = Some (VBytes b) -> length b <> S n -> exists c, encode fs e = EncodeErr c.
+Proof. exact (fun fs e nm n p b Hpo Hin Hp Hl Hn => unencodable fs _ e Hpo Hin (enc_fails_buf nm n p e b Hp Hl Hn)). Qed.
+Print Assumptions c16_wrong_length_buffer.
+
+(* a missing value (KeyError inside the field) is wrapped into EncodeError *)
+Theorem c16_missing_value : forall fs e nm l p le sg off mult,
+  proto_ok fs = true -> In (FUint nm l p le sg off mult) fs -> get_pres p e = Ok true -> lookup nm e = None ->
+  exists c, encode fs e = EncodeErr c.
+Proof. exact (fun fs e nm l p le sg off mult Hpo Hin Hp Hl => unencodable fs _ e Hpo Hin (enc_fails_missing_uint nm l p le sg off mult e Hp Hl)). Qed.
+Print Assumptions c16_missing_value.
+
+(* ------------------------------------------------------------------ non-vacuity: one definition using every construct *)
+Theorem c16_example :
+  wfb ex_def = true /\ proto_ok ex_def = true /\ seq_ok ex_def = true /\
+  (fits ex_def ex_val [] 0 ex_val 17 /\ NoDup (keys ex_val)) /\
+  encode ex_def ex_in = Ok ex_bytes /\ encode ex_def ex_val = Ok ex_bytes /\ decode true ex_def ex_bytes = Ok (ex_val, 17%nat).
+Proof. exact (conj (proj1 ex_static) (conj (proj1 (proj2 ex_static)) (conj (proj2 (proj2 ex_static)) (conj ex_fits (conj (proj1 ex_encode) (conj (proj2 ex_encode) ex_decode)))))). Qed.
+Print Assumptions c16_example.
+
+Theorem c16_example_errors :
+  decode true ex_def (firstn 16 ex_bytes) = DecodeErr 0 /\
+  decode true ex_def (ex_bytes ++ [0]) = DecodeErr 1 /\
+  decode true ex_def (21 :: tl ex_bytes) = DecodeErr 0 /\
+  decode true ex_def (firstn 4 ex_bytes ++ [160] ++ skipn 5 ex_bytes) = DecodeErr 1 /\
+  encode ex_def (eset 2%nat (VInt 100000) ex_val) = EncodeErr 2 /\
+  encode ex_def (eset 6%nat (VBytes [1;2]) ex_val) = Ok (firstn 7 ex_bytes ++ skipn 8 ex_bytes) /\
+  encode ex_def (tl ex_val) = Ok ex_bytes /\
+  encode ex_def (tl (tl ex_val)) = EncodeErr 1.
+Proof. exact ex_errors. Qed.
+Print Assumptions c16_example_errors.
